@@ -217,8 +217,15 @@ func (in *Interp) valEq(x, y Value) *smt.Term {
 		b, _ := y.(*Closure)
 		return smt.Bool(a == nil && b == nil)
 	case *TimeV:
+		// == on time.Time compares the representation (wall, ext, *Location), not the instant: two values denoting
+		// the same instant are equal only when both are held in UTC without a monotonic reading (the model's
+		// "UTC" flag); the same value compared with itself is equal.
 		b := y.(*TimeV)
-		return smt.Eq(a.Inst, b.Inst)
+		if a == b {
+			return smt.True
+		}
+		in.X.noteAssumption("== on time.Time: same instant and both values held in UTC (struct comparison); values with zone offsets are never ==")
+		return smt.And(smt.Eq(a.Inst, b.Inst), a.UTC, b.UTC)
 	case *Opaque:
 		b, ok := y.(*Opaque)
 		return smt.Bool(ok && a == b)
